@@ -101,6 +101,7 @@ type InstanceCheck struct {
 }
 
 type LemmaContract struct {
+	Raw   string // raw SMT-LIB formula (rawlemma); declarations come from the file's smt lines
 	Name  string
 	Props []string
 	Vars  []CVar
@@ -292,6 +293,13 @@ func ParseContractFile(path string) (*ContractFile, error) {
 			}
 			cf.Insts = append(cf.Insts, &InstanceCheck{Name: strings.TrimSpace(nm), Type: strings.TrimSpace(ty), Props: fileProps, Line: n})
 			top, cur, iface, impl = nil, nil, nil, nil
+		case "rawlemma":
+			nm, ex, ok := strings.Cut(rest, ":")
+			if !ok {
+				return nil, fmt.Errorf("%s:%d: rawlemma needs `name: formula`", path, n)
+			}
+			cf.Lemmas = append(cf.Lemmas, &LemmaContract{Name: strings.TrimSpace(nm), Raw: strings.TrimSpace(ex), Props: fileProps,
+				Expr: Clause{Src: strings.TrimSpace(ex), Line: n, File: path}})
 		case "lemmaprops":
 			if len(cf.Lemmas) == 0 {
 				return nil, fmt.Errorf("%s:%d: lemmaprops without lemma", path, n)
